@@ -108,7 +108,7 @@ inductive Rpc
   | getSnap (name : String)
   | listSnaps (project : String) (pageSize : Int) (token : Option (Option Id))
   | deleteSnap (name : String)
-  | publishCheck (topic : String)                          -- everything before the first message
+  | publishCheck (topic : String) (badBatch : Bool)        -- no message, or a batch [valid, payload that is not JSON]
 deriving Repr, Inhabited
 
 structure Resp where
@@ -527,11 +527,13 @@ def hDeleteSnap (db : Db) (now : Time) (name : String) : Db × Resp :=
     | .error e => (db, { status := ofErr e })
     | .ok o => (o.db, { status := .ok })
 
-def hPublishCheck (db : Db) (now : Time) (topic : String) : Db × Resp :=
+def hPublishCheck (db : Db) (now : Time) (topic : String) (badBatch : Bool) : Db × Resp :=
   if !isValidTopicName topic then (db, { status := .invalidArgument })
   else match db.liveTopicByName topic with
     | none => (db, { status := .notFound })
-    | some _ => (db, { status := .ok })
+    | some _ =>
+      -- a message whose payload is not JSON fails the whole batch: one transaction, nothing is stored
+      if badBatch then (db, { status := .unknown }) else (db, { status := .ok })
 
 /-- dispatch -/
 def handle (db : Db) (now : Time) : Rpc → Db × Resp
@@ -553,6 +555,6 @@ def handle (db : Db) (now : Time) : Rpc → Db × Resp
   | .getSnap name => hGetSnap db now name
   | .listSnaps project pageSize token => hListSnaps db now project pageSize token
   | .deleteSnap name => hDeleteSnap db now name
-  | .publishCheck topic => hPublishCheck db now topic
+  | .publishCheck topic bad => hPublishCheck db now topic bad
 
 end Mmmbbb.Api
